@@ -133,6 +133,17 @@ def getattr(I, st, v, name):
             yield st, enum_member(I, st, v, name)
             return
         m, where = I.class_lookup(v, name)
+        if m is None and name == "__init__":
+            # Class.__init__(obj) of a class that defines none: object.__init__, which accepts the instance only
+            if any(isinstance(c, BuiltinClass) and c.name != "object" for c in I.mro(v)):
+                raise Unsupported("__init__ inherited from a builtin base of %s" % v.name)
+
+            def _obj_init(I, st, a, k):
+                if len(a) != 1 or k:
+                    raise Unsupported("object.__init__ with arguments")
+                yield st, None
+            yield st, bi("object.__init__", _obj_init)
+            return
         if m is None:
             yield st, exc("AttributeError", "type object '%s' has no attribute '%s'" % (v.name, name))
             return
@@ -1509,6 +1520,16 @@ def make_builtins(I):
                 yield from I.call(m, [v], {}, st)
                 return
             yield st, 1000000 + v.id
+            return
+        if isinstance(v, tuple) and v and all((isinstance(x, int) and not isinstance(x, bool)) or (is_z3(x) and z3.is_int(x)) for x in v):
+            # hash of a tuple of ints: a function of the elements (uninterpreted); on concrete elements its value is
+            # CPython's deterministic tuple hash, so that (in)equality of hashes of concrete tuples is decided as it runs
+            f = I.func("pyhash_int_tuple%d" % len(v), *([z3.IntSort()] * (len(v) + 1)))
+            t = f(*[z3val(x) for x in v])
+            if all(isinstance(x, int) for x in v):
+                I.trust("hash-int-tuple", "A3: hash() of a tuple of ints is CPython's deterministic tuple hash (no hash randomisation for ints)")
+                I.axiom(("pyhash",) + tuple(v), t == _b.hash(tuple(v)))
+            yield st, t
             return
         yield st, Opaque("hash")
 
